@@ -91,11 +91,27 @@ theorem sp_part (ext : Option Nat) (p : RPart) (hopen : ¬ (ext = none ∧ p.isO
           simp only [hb, if_false, h1, Bool.false_eq_true]
           rcases pySlice e a (some b) c with _ | l <;> rfl
 
-/-- no new mode is addressed by an open slice -/
-def noOpenNew : List Nat → List RPart → Bool
+/-- A key element that may address a NEW mode in the proved fragment: an integer, an index
+list, or a slice with an explicit stop ≥ 1 (an open slice in a new mode is refused by the
+class; a stop ≤ 0 would create a mode of extent 0). -/
+def RPart.okForNewMode : RPart → Bool
+  | .slice _ (some b) _ => decide (1 ≤ b)
+  | .slice _ none _ => false
+  | _ => true
+
+/-- every new mode is addressed by an admissible key element -/
+def newModesOk : List Nat → List RPart → Bool
   | _, [] => true
-  | [], p :: ps => !p.isOpenSlice && noOpenNew [] ps
-  | _ :: es, _ :: ps => noOpenNew es ps
+  | [], p :: ps => p.okForNewMode && newModesOk [] ps
+  | _ :: es, _ :: ps => newModesOk es ps
+
+theorem not_open_of_ok {p : RPart} (h : p.okForNewMode = true) : p.isOpenSlice = false := by
+  cases p with
+  | int i => rfl
+  | list l => rfl
+  | slice a b c => cases b with
+    | none => simp [RPart.okForNewMode] at h
+    | some b => rfl
 
 theorem except_bind_swap3 {A B C A' B' C' E : Type} (a : Except Reject A) (b : A → Except Reject B)
     (c : B → A → Except Reject C) (a' : Except Reject A') (b' : A' → Except Reject B')
@@ -125,7 +141,7 @@ theorem except_bind_swap3 {A B C A' B' C' E : Type} (a : Except Reject A) (b : A
           · simp only
             rcases c' y' x' with ⟨⟨⟩⟩ | z' <;> rfl
 
-theorem sp_region (s : List Nat) (parts : List RPart) (h : noOpenNew s parts = true) :
+theorem sp_region (s : List Nat) (parts : List RPart) (h : newModesOk s parts = true) :
     (do let ps ← Sparse.rewriteNeg s parts; let s' ← Sparse.newSizeScalar s ps; let idx ← Sparse.regionIdx s' ps
         pure (s', idx) : Except Reject (List Nat × List (List Nat))) =
     (MArr.regionParts true s parts).map (fun rs => (rs.map (·.1), rs.map (·.2.1))) := by
@@ -137,8 +153,8 @@ theorem sp_region (s : List Nat) (parts : List RPart) (h : noOpenNew s parts = t
   | cons p ps ih =>
     cases s with
     | nil =>
-      simp only [noOpenNew, Bool.and_eq_true, Bool.not_eq_true'] at h
-      have h1 := sp_part none p (by simp [h.1])
+      simp only [newModesOk, Bool.and_eq_true] at h
+      have h1 := sp_part none p (by simp [not_open_of_ok h.1])
       have h2 := ih [] h.2
       simp only [Option.getD_none, Option.isNone_none] at h1
       have swap := except_bind_swap3 (Sparse.rewriteNegPart none p) (Sparse.newExtScalar none)
@@ -170,7 +186,7 @@ theorem sp_region (s : List Nat) (parts : List RPart) (h : noOpenNew s parts = t
             · rfl
             · rcases MArr.regionParts true [] ps with ⟨⟨⟩⟩ | rs <;> rfl
     | cons e0 es0 =>
-      simp only [noOpenNew] at h
+      simp only [newModesOk] at h
       have h1 := sp_part (some e0) p (by simp)
       have h2 := ih es0 h
       simp only [Option.getD_some, Option.isNone_some] at h1
@@ -202,5 +218,623 @@ theorem sp_region (s : List Nat) (parts : List RPart) (h : noOpenNew s parts = t
             · rfl
             · rcases MArr.regionParts true es0 ps with ⟨⟨⟩⟩ | rs <;> rfl
 
+
+/-! ### the shape after a region write -/
+
+theorem regionPart_grow_ge {ext : Nat} {p : RPart} {r : Nat × List Nat × Bool}
+    (h : MArr.regionPart ext false true p = .ok r) : ext ≤ r.1 := by
+  cases p with
+  | int i =>
+    simp only [MArr.regionPart] at h
+    split at h
+    · split at h
+      · cases h; exact Nat.le_max_left _ _
+      · cases h
+    · split at h
+      · cases h; exact Nat.le_refl _
+      · cases h
+  | list is =>
+    simp only [MArr.regionPart] at h
+    split at h
+    · cases h
+    · split at h
+      · cases h; exact Nat.le_max_left _ _
+      · cases h
+  | slice a b c =>
+    simp only [MArr.regionPart, bind, Except.bind] at h
+    cases he : MArr.sliceExtent ext false true b with
+    | error e => rw [he] at h; cases h
+    | ok e =>
+      rw [he] at h
+      simp only at h
+      cases hs : pySlice e a b c with
+      | error e' => rw [hs] at h; cases h
+      | ok idx =>
+        rw [hs] at h
+        cases h
+        show ext ≤ e
+        unfold MArr.sliceExtent at he
+        simp only [if_true] at he
+        cases b with
+        | none => simp only [Bool.false_eq_true, if_false] at he; cases he; exact Nat.le_refl _
+        | some b =>
+          simp only at he
+          split at he
+          · cases he; exact Nat.le_max_left _ _
+          · simp only [Bool.false_eq_true, if_false] at he
+            cases he; exact Nat.le_refl _
+
+theorem regionPart_new_pos {p : RPart} {r : Nat × List Nat × Bool} (hok : p.okForNewMode = true)
+    (h : MArr.regionPart 0 true true p = .ok r) : 1 ≤ r.1 := by
+  cases p with
+  | int i =>
+    simp only [MArr.regionPart] at h
+    split at h
+    · split at h
+      · cases h; show 1 ≤ max 0 (i.toNat + 1); omega
+      · cases h
+    · split at h
+      · next h1 h2 => omega
+      · cases h
+  | list is =>
+    simp only [MArr.regionPart] at h
+    split at h
+    · cases h
+    · split at h
+      · cases h; show 1 ≤ max 0 (maxNat is + 1); omega
+      · cases h
+  | slice a b c =>
+    cases b with
+    | none => simp [RPart.okForNewMode] at hok
+    | some b =>
+      have hb : 1 ≤ b := by simpa [RPart.okForNewMode] using hok
+      simp only [MArr.regionPart, MArr.sliceExtent, if_true, bind, Except.bind] at h
+      have h0 : 0 ≤ b := by omega
+      simp only [h0, if_true] at h
+      cases hs : pySlice (max 0 b.toNat) a (some b) c with
+      | error e' => rw [hs] at h; cases h
+      | ok idx => rw [hs] at h; cases h; show 1 ≤ max 0 b.toNat; omega
+
+/-- After a region write the shape has at least the old order, every old extent is kept
+or enlarged and every new mode has extent at least 1. -/
+theorem regionParts_grow_props {s : List Nat} {parts : List RPart} {rs : List (Nat × List Nat × Bool)}
+    (h : MArr.regionParts true s parts = .ok rs) (hok : newModesOk s parts = true) :
+    s.length ≤ rs.length ∧
+    (∀ k, k < s.length → s.getD k 0 ≤ (rs.map (·.1)).getD k 0) ∧
+    (∀ k, s.length ≤ k → k < rs.length → 1 ≤ (rs.map (·.1)).getD k 0) := by
+  induction parts generalizing s rs with
+  | nil =>
+    cases s with
+    | nil => simp [MArr.regionParts] at h; subst h; simp
+    | cons e es => simp [MArr.regionParts] at h
+  | cons p ps ih =>
+    cases s with
+    | nil =>
+      simp only [newModesOk, Bool.and_eq_true] at hok
+      simp only [MArr.regionParts, Bool.not_true, Bool.false_eq_true, ↓reduceIte, bind, Except.bind, pure,
+        Except.pure] at h
+      cases h1 : MArr.regionPart 0 true true p with
+      | error e => rw [h1] at h; cases h
+      | ok r =>
+        rw [h1] at h
+        cases h2 : MArr.regionParts true [] ps with
+        | error e => rw [h2] at h; cases h
+        | ok rs' =>
+          rw [h2] at h
+          cases h
+          obtain ⟨_, _, i3⟩ := ih h2 hok.2
+          refine ⟨by simp, by intro k hk; simp at hk, ?_⟩
+          intro k _ hk
+          cases k with
+          | zero => simpa using regionPart_new_pos hok.1 h1
+          | succ k => simpa using i3 k (by simp) (by simpa using hk)
+    | cons e es =>
+      simp only [newModesOk] at hok
+      simp only [MArr.regionParts, bind, Except.bind, pure, Except.pure] at h
+      cases h1 : MArr.regionPart e false true p with
+      | error e' => rw [h1] at h; cases h
+      | ok r =>
+        rw [h1] at h
+        cases h2 : MArr.regionParts true es ps with
+        | error e' => rw [h2] at h; cases h
+        | ok rs' =>
+          rw [h2] at h
+          cases h
+          obtain ⟨i1, i2, i3⟩ := ih h2 hok
+          refine ⟨by simpa using i1, ?_, ?_⟩
+          · intro k hk
+            cases k with
+            | zero => simpa using regionPart_grow_ge h1
+            | succ k => simpa using i2 k (by simpa using hk)
+          · intro k hk hk'
+            cases k with
+            | zero => simp at hk
+            | succ k => simpa using i3 k (by simpa using hk) (by simpa using hk')
+
+/-! ### membership in a region -/
+
+theorem mem_outerF_iff (ls : List (List Nat)) (t : List Nat) : t ∈ outerF ls ↔ Sparse.inRegionB ls t = true := by
+  induction ls generalizing t with
+  | nil => cases t <;> simp [outerF, Sparse.inRegionB]
+  | cons l ls ih =>
+    simp only [outerF, List.mem_flatMap, List.mem_map]
+    cases t with
+    | nil =>
+      simp only [Sparse.inRegionB]
+      constructor
+      · rintro ⟨_, _, _, _, h⟩; cases h
+      · intro h; cases h
+    | cons x xs =>
+      simp only [Sparse.inRegionB, Bool.and_eq_true, List.contains_eq_mem, decide_eq_true_eq, ← ih]
+      constructor
+      · rintro ⟨t', ht', i, hi, he⟩
+        cases he
+        exact ⟨hi, ht'⟩
+      · rintro ⟨h1, h2⟩
+        exact ⟨xs, h2, x, h1, rfl⟩
+
+theorem mem_outerC_iff (ls : List (List Nat)) (t : List Nat) : t ∈ outerC ls ↔ Sparse.inRegionB ls t = true := by
+  induction ls generalizing t with
+  | nil => cases t <;> simp [outerC, Sparse.inRegionB]
+  | cons l ls ih =>
+    simp only [outerC, List.mem_flatMap, List.mem_map]
+    cases t with
+    | nil =>
+      simp only [Sparse.inRegionB]
+      constructor
+      · rintro ⟨_, _, _, _, h⟩; cases h
+      · intro h; cases h
+    | cons x xs =>
+      simp only [Sparse.inRegionB, Bool.and_eq_true, List.contains_eq_mem, decide_eq_true_eq, ← ih]
+      constructor
+      · rintro ⟨i, hi, t', ht', he⟩
+        cases he
+        exact ⟨hi, ht'⟩
+      · rintro ⟨h1, h2⟩
+        exact ⟨x, h1, xs, h2, rfl⟩
+
+/-! ### deleting / assigning a set of cells of a stored sparse tensor -/
+
+theorem scatter1_const_getD [Zero α] (vals : List α) (ks : List Nat) (v : α) (k : Nat) (hk : k < vals.length) :
+    (scatter1 vals (ks.map fun j => (j, v))).getD k 0 = if k ∈ ks then v else vals.getD k 0 := by
+  unfold scatter1
+  induction ks generalizing vals with
+  | nil => simp
+  | cons j ks ih =>
+    simp only [List.map_cons, List.foldl_cons]
+    rw [ih (vals.set j v) (by simpa using hk)]
+    by_cases h1 : k ∈ ks
+    · simp [h1]
+    · by_cases h2 : k = j
+      · subst h2
+        simp [h1, List.getD_eq_getElem?_getD, List.getElem?_set, hk]
+      · have h3 : ¬ j = k := fun h => h2 h.symm
+        simp [h1, h2, List.getD_eq_getElem?_getD, List.getElem?_set, h3]
+
+section ra
+variable [AddMonoid α] [DecidableEq α]
+
+theorem kvSum_zip_eq (subs1 : List (List Nat)) (vals : List α) (hn : subs1.Nodup) (hl : subs1.length = vals.length)
+    (i : List Nat) :
+    kvSum (subs1.zip vals) i = if i ∈ subs1 then vals.getD (subs1.idxOf i) 0 else 0 := by
+  rw [zip_eq_map_range subs1 vals hl [] 0,
+    kvSum_positions subs1 hn (fun k => vals.getD k 0) _ List.nodup_range (by simp) i]
+  by_cases hs : i ∈ subs1
+  · have : subs1.idxOf i < subs1.length := List.idxOf_lt_length_iff.2 hs
+    simp [hs, this]
+  · simp [hs]
+
+/-- Deleting the stored entries that satisfy `R` (the zero right-hand side). -/
+theorem region_delete (subs1 : List (List Nat)) (vals : List α) (hn : subs1.Nodup) (hl : subs1.length = vals.length)
+    (R : List Nat → Bool) (keep : List Nat)
+    (hkeep : keep = setdiff1d (List.range subs1.length)
+      ((List.range subs1.length).filter fun k => R (subs1.getD k []))) :
+    (keep.map fun k => subs1.getD k []).length = (keep.map fun k => vals.getD k 0).length ∧
+    (keep.map fun k => subs1.getD k []).Nodup ∧
+    (∀ x ∈ keep.map fun k => subs1.getD k [], x ∈ subs1) ∧
+    (∀ v ∈ keep.map fun k => vals.getD k 0, v ∈ vals) ∧
+    ∀ i, kvSum ((keep.map fun k => subs1.getD k []).zip (keep.map fun k => vals.getD k 0)) i =
+      if R i = true then 0 else kvSum (subs1.zip vals) i := by
+  have hmem : ∀ k, k ∈ keep ↔ k < subs1.length ∧ R (subs1.getD k []) = false := by
+    intro k
+    rw [hkeep, setdiff1d_of_sorted _ _ List.pairwise_lt_range, List.mem_filter, List.mem_range]
+    constructor
+    · rintro ⟨hk, hnot⟩
+      refine ⟨hk, ?_⟩
+      cases hR : R (subs1.getD k []) with
+      | false => rfl
+      | true =>
+        have : k ∈ (List.range subs1.length).filter fun k => R (subs1.getD k []) := by
+          rw [List.mem_filter]; exact ⟨List.mem_range.2 hk, hR⟩
+        rw [List.contains_eq_mem, decide_eq_true this] at hnot
+        cases hnot
+    · rintro ⟨hk, hR⟩
+      refine ⟨hk, ?_⟩
+      have : k ∉ (List.range subs1.length).filter fun k => R (subs1.getD k []) := by
+        rw [List.mem_filter]; rintro ⟨_, h2⟩; rw [hR] at h2; cases h2
+      rw [List.contains_eq_mem, decide_eq_false this]
+      rfl
+  have hnod : keep.Nodup := by
+    rw [hkeep, setdiff1d_of_sorted _ _ List.pairwise_lt_range]
+    exact List.Nodup.sublist List.filter_sublist List.nodup_range
+  have hlt : ∀ k ∈ keep, k < subs1.length := fun k hk => ((hmem k).1 hk).1
+  refine ⟨by simp, ?_, ?_, ?_, ?_⟩
+  · apply nodup_map_on _ hnod
+    intro x hx y hy hxy
+    rw [getD_eq_getElem_nil _ _ (hlt x hx), getD_eq_getElem_nil _ _ (hlt y hy)] at hxy
+    exact (List.getElem_inj hn).1 hxy
+  · intro x hx
+    obtain ⟨k, hk, rfl⟩ := List.mem_map.1 hx
+    rw [getD_eq_getElem_nil _ _ (hlt k hk)]
+    exact List.getElem_mem _
+  · intro v hv
+    obtain ⟨k, hk, rfl⟩ := List.mem_map.1 hv
+    have hk' : k < vals.length := hl ▸ hlt k hk
+    rw [List.getD_eq_getElem?_getD, List.getElem?_eq_getElem hk']
+    exact List.getElem_mem _
+  · intro i
+    rw [zip_map_map, kvSum_positions subs1 hn (fun k => vals.getD k 0) keep hnod hlt i, kvSum_zip_eq subs1 vals hn hl i]
+    by_cases hs : i ∈ subs1
+    · have hk0 : subs1.idxOf i < subs1.length := List.idxOf_lt_length_iff.2 hs
+      have hgetD : subs1.getD (subs1.idxOf i) [] = i := by
+        rw [getD_eq_getElem_nil _ _ hk0]; exact List.getElem_idxOf hk0
+      have hk : subs1.idxOf i ∈ keep ↔ R i = false := by rw [hmem, hgetD]; simp [hk0]
+      cases hR : R i with
+      | true =>
+        have : subs1.idxOf i ∉ keep := by rw [hk, hR]; simp
+        simp [hs, this]
+      | false =>
+        have : subs1.idxOf i ∈ keep := by rw [hk, hR]
+        simp [hs, this]
+    · simp [hs]
+
+/-- Assigning the non-zero value `v` to every cell that satisfies `R`: stored entries in
+the set get the value, the missing ones are appended. -/
+theorem region_assign (subs1 : List (List Nat)) (vals : List α) (hn : subs1.Nodup) (hl : subs1.length = vals.length)
+    (R : List Nat → Bool) (v : α) (loc : List Nat) (fresh : List (List Nat))
+    (hloc : ∀ k, k ∈ loc ↔ k < subs1.length ∧ R (subs1.getD k []) = true)
+    (hfn : fresh.Nodup) (hfm : ∀ r, r ∈ fresh ↔ R r = true ∧ r ∉ subs1) :
+    (subs1 ++ fresh).length = (scatter1 vals (loc.map fun k => (k, v)) ++ fresh.map fun _ => v).length ∧
+    (subs1 ++ fresh).Nodup ∧
+    (∀ x ∈ scatter1 vals (loc.map fun k => (k, v)) ++ fresh.map fun _ => v, x ∈ vals ∨ x = v) ∧
+    ∀ i, kvSum ((subs1 ++ fresh).zip (scatter1 vals (loc.map fun k => (k, v)) ++ fresh.map fun _ => v)) i =
+      if R i = true then v else kvSum (subs1.zip vals) i := by
+  have hsl : (scatter1 vals (loc.map fun k => (k, v))).length = vals.length := scatter1_length _ _
+  refine ⟨by simp [hsl, hl], ?_, ?_, ?_⟩
+  · rw [List.nodup_append]
+    refine ⟨hn, hfn, ?_⟩
+    intro a ha b hb hab
+    exact ((hfm b).1 hb).2 (hab ▸ ha)
+  · intro x hx
+    rcases List.mem_append.1 hx with h | h
+    · obtain ⟨k, hk, rfl⟩ := List.mem_iff_getElem.1 h
+      have hk' : k < vals.length := hsl ▸ hk
+      have := scatter1_const_getD vals loc v k hk'
+      rw [List.getD_eq_getElem?_getD, List.getElem?_eq_getElem hk] at this
+      simp only [Option.getD_some] at this
+      rw [this]
+      split
+      · right; rfl
+      · left
+        rw [List.getD_eq_getElem?_getD, List.getElem?_eq_getElem hk']
+        exact List.getElem_mem _
+    · obtain ⟨r, _, rfl⟩ := List.mem_map.1 h
+      right; rfl
+  · intro i
+    rw [List.zip_append (by rw [hsl, hl]), kvSum_append,
+      kvSum_zip_eq subs1 _ hn (by rw [hsl, hl]) i, kvSum_zip_eq subs1 vals hn hl i]
+    have hfz : fresh.zip (fresh.map fun _ => v) = fresh.map fun r => (r, v) := by
+      rw [List.zip_map_right, zip_self_eq, List.map_map]; rfl
+    rw [hfz, kvSum_map fresh (fun _ => v) i hfn]
+    by_cases hs : i ∈ subs1
+    · have hk0 : subs1.idxOf i < subs1.length := List.idxOf_lt_length_iff.2 hs
+      have hgetD : subs1.getD (subs1.idxOf i) [] = i := by
+        rw [getD_eq_getElem_nil _ _ hk0]; exact List.getElem_idxOf hk0
+      have hnf : i ∉ fresh := fun hc => ((hfm i).1 hc).2 hs
+      rw [scatter1_const_getD vals loc v _ (hl ▸ hk0)]
+      have hk : subs1.idxOf i ∈ loc ↔ R i = true := by rw [hloc, hgetD]; simp [hk0]
+      cases hR : R i with
+      | true =>
+        have : subs1.idxOf i ∈ loc := hk.2 hR
+        simp [hs, this, hnf]
+      | false =>
+        have : subs1.idxOf i ∉ loc := by rw [hk, hR]; simp
+        simp [hs, this, hnf]
+    · cases hR : R i with
+      | true =>
+        have : i ∈ fresh := (hfm i).2 ⟨hR, hs⟩
+        simp [hs, this]
+      | false =>
+        have : i ∉ fresh := fun hc => by have := ((hfm i).1 hc).1; rw [hR] at this; cases this
+        simp [hs, this]
+
+end ra
+
+/-! ### `tt_intersect_rows` / `tt_setdiff_rows` on subscript rows -/
+
+theorem map_ofNat_inj {r1 r2 : List Nat} (h : r1.map Int.ofNat = r2.map Int.ofNat) : r1 = r2 := by
+  induction r1 generalizing r2 with
+  | nil => cases r2 with
+    | nil => rfl
+    | cons b r2 => simp at h
+  | cons a r1 ih => cases r2 with
+    | nil => simp at h
+    | cons b r2 =>
+      simp only [List.map_cons, List.cons.injEq] at h
+      rw [ih h.2, Int.ofNat.inj h.1]
+
+theorem mem_toIntRows {l : List (List Nat)} {r : List Nat} : r.map Int.ofNat ∈ toIntRows l ↔ r ∈ l := by
+  unfold toIntRows
+  rw [List.mem_map]
+  constructor
+  · rintro ⟨x, hx, he⟩; rw [← map_ofNat_inj he]; exact hx
+  · intro h; exact ⟨r, h, rfl⟩
+
+theorem toIntRows_getD (l : List (List Nat)) (k : Nat) : (toIntRows l).getD k [] = (l.getD k []).map Int.ofNat := by
+  unfold toIntRows
+  simp only [List.getD_eq_getElem?_getD, List.getElem?_map]
+  cases l[k]? <;> rfl
+
+theorem toIntRows_nodup {l : List (List Nat)} (h : l.Nodup) : (toIntRows l).Nodup :=
+  nodup_map_on _ h (fun _ _ _ _ he => map_ofNat_inj he)
+
+theorem firstOccIdx_of_nodup {A : List Row} (h : A.Nodup) (k : Nat) : k ∈ firstOccIdx A ↔ k < A.length := by
+  rw [mem_firstOccIdx]
+  constructor
+  · exact fun h => h.1
+  · intro hk
+    refine ⟨hk, ?_⟩
+    intro j hj he
+    rw [getD_of_lt A j (by omega), getD_of_lt A k hk] at he
+    have := (List.getElem_inj h).1 he
+    omega
+
+/-- positions of the stored subscripts that lie in `addsubs` -/
+theorem mem_loc (subs' addsubs : List (List Nat)) (hn : subs'.Nodup) (k : Nat) :
+    k ∈ intersectRows (toIntRows subs') (toIntRows addsubs) ↔ k < subs'.length ∧ subs'.getD k [] ∈ addsubs := by
+  have hA := toIntRows_nodup hn
+  have hlen : (toIntRows subs').length = subs'.length := by simp [toIntRows]
+  constructor
+  · intro hk
+    have h1 := intersect_mem _ _ k hk
+    have h2 := (mem_intersect_iff _ _ k h1).1 hk
+    rw [firstOccIdx_of_nodup hA, hlen] at h1
+    rw [toIntRows_getD, mem_toIntRows] at h2
+    exact ⟨h1, h2⟩
+  · rintro ⟨h1, h2⟩
+    have h1' : k ∈ firstOccIdx (toIntRows subs') := by rw [firstOccIdx_of_nodup hA, hlen]; exact h1
+    rw [mem_intersect_iff _ _ k h1', toIntRows_getD, mem_toIntRows]
+    exact h2
+
+/-- the distinct rows of `addsubs` that are not stored -/
+theorem fresh_spec (subs' addsubs : List (List Nat)) :
+    ((setdiffRows (toIntRows addsubs) (toIntRows subs')).map fun k => addsubs.getD k []).Nodup ∧
+    ∀ r, r ∈ (setdiffRows (toIntRows addsubs) (toIntRows subs')).map (fun k => addsubs.getD k []) ↔
+      r ∈ addsubs ∧ r ∉ subs' := by
+  rw [setdiff_spec]
+  have hlen : (toIntRows addsubs).length = addsubs.length := by simp [toIntRows]
+  constructor
+  · apply nodup_map_on
+    · exact List.Nodup.sublist List.filter_sublist
+        (List.Pairwise.imp (fun h => Nat.ne_of_lt h) (firstOccIdx_pairwise _))
+    · intro x hx y hy hxy
+      have hx' := (List.mem_filter.1 hx).1
+      have hy' := (List.mem_filter.1 hy).1
+      apply firstOccIdx_inj hx' hy'
+      rw [toIntRows_getD, toIntRows_getD, hxy]
+  · intro r
+    rw [List.mem_map]
+    constructor
+    · rintro ⟨k, hk, rfl⟩
+      obtain ⟨hk1, hk2⟩ := List.mem_filter.1 hk
+      have hlt : k < addsubs.length := by rw [← hlen]; exact ((mem_firstOccIdx _ k).1 hk1).1
+      refine ⟨?_, ?_⟩
+      · rw [getD_eq_getElem_nil _ _ hlt]; exact List.getElem_mem _
+      · intro hc
+        rw [toIntRows_getD] at hk2
+        have : (toIntRows subs').contains ((addsubs.getD k []).map Int.ofNat) = true := by
+          rw [List.contains_eq_mem, decide_eq_true (mem_toIntRows.2 hc)]
+        rw [this] at hk2
+        cases hk2
+    · rintro ⟨h1, h2⟩
+      obtain ⟨k, hk, rfl⟩ := List.mem_iff_getElem.1 h1
+      obtain ⟨j, hj, he⟩ := exists_firstOcc (toIntRows addsubs) k (by rw [hlen]; exact hk)
+      rw [toIntRows_getD, toIntRows_getD] at he
+      have he' := map_ofNat_inj he
+      rw [getD_eq_getElem_nil _ _ hk] at he'
+      refine ⟨j, ?_, he'⟩
+      rw [List.mem_filter]
+      refine ⟨hj, ?_⟩
+      rw [toIntRows_getD, he', List.contains_eq_mem]
+      have : ¬ (addsubs[k].map Int.ofNat ∈ toIntRows subs') := fun hc => h2 (mem_toIntRows.1 hc)
+      rw [decide_eq_false this]
+      rfl
+
+/-! ### the region write refines the specification -/
+
+theorem kvLast_const [Zero α] (l : List (List Nat)) (v : α) (i : List Nat) (hi : i ∈ l) :
+    kvLast (l.map fun t => (t, v)) i = v := by
+  unfold kvLast
+  cases hf : (l.map fun t => (t, v)).reverse.find? (fun e => e.1 == i) with
+  | none =>
+    rw [List.find?_eq_none] at hf
+    exact absurd (by simp) (hf (i, v) (List.mem_reverse.2 (List.mem_map.2 ⟨i, hi, rfl⟩)))
+  | some e =>
+    have := List.mem_reverse.1 (List.mem_of_find?_eq_some hf)
+    obtain ⟨t, _, rfl⟩ := List.mem_map.1 this
+    rfl
+
+theorem zip_replicate_eq_map {β γ : Type} (l : List β) (v : γ) : l.zip (List.replicate l.length v) = l.map fun t => (t, v) := by
+  induction l with
+  | nil => rfl
+  | cons a l ih => simp [List.replicate_succ, ih]
+
+theorem padSubs_nil (w : Nat) : Sparse.padSubs [] w = [] := rfl
+
+section rr
+variable [AddMonoid α] [DecidableEq α]
+
+/-- The stored tensor after `_set_subtensor` with a scalar represents the specification's
+result: the enlarged array with every cell of the region set to the scalar. -/
+theorem regionScalarApply_spec {S : Sparse α} {m : MArr α} (h : SRel S m) (s' : List Nat) (idx : List (List Nat))
+    (v : α) (hnw : S.shape.length ≤ s'.length)
+    (h1 : ∀ k, k < S.shape.length → S.shape.getD k 0 ≤ s'.getD k 0)
+    (h2 : ∀ k, S.shape.length ≤ k → k < s'.length → 1 ≤ s'.getD k 0)
+    (hidx : ∀ t, Sparse.inRegionB idx t = true → InBounds s' t) :
+    SRel (Sparse.regionScalarApply S s' idx v) ((m.grow s').assignAll ((outerF idx).map fun t => (t, v))) := by
+  have hlenS := Sparse.subs_length h.wf
+  have hsubs' : (if S.subs.isEmpty then S.subs else Sparse.padSubs S.subs s'.length) = Sparse.padSubs S.subs s'.length := by
+    split
+    · next he =>
+      have : S.subs = [] := by simpa using he
+      rw [this]; rfl
+    · rfl
+  have hpn : (Sparse.padSubs S.subs s'.length).Nodup := padSubs_nodup S.subs _ _ hlenS h.wf.nodup
+  have hpl : (Sparse.padSubs S.subs s'.length).length = S.vals.length := by simp [Sparse.padSubs, h.wf.len]
+  have hpin : ∀ x ∈ Sparse.padSubs S.subs s'.length, InBounds s' x := by
+    intro x hx
+    unfold Sparse.padSubs at hx
+    obtain ⟨r, hr, rfl⟩ := List.mem_map.1 hx
+    rw [hlenS r hr]
+    exact inBounds_pad (h.wf.inb r hr) s'.length rfl hnw h1 h2
+  have hgrow := kvSum_pad_eq_grow h s'.length s' hnw rfl h1 h2
+  -- the specification's cells
+  have hspec : ∀ i, ((m.grow s').assignAll ((outerF idx).map fun t => (t, v))).get i =
+      if Sparse.inRegionB idx i = true then v else (m.grow s').get i := by
+    intro i
+    have hkeys : ((outerF idx).map fun t => (t, v)).map (·.1) = outerF idx := by
+      rw [List.map_map]; exact List.map_id _
+    by_cases hb : InBounds s' i
+    · rw [MArr.assignAll_get _ _ i (by rw [MArr.grow_shape]; exact hb), hkeys]
+      by_cases hR : Sparse.inRegionB idx i = true
+      · have : i ∈ outerF idx := (mem_outerF_iff idx i).2 hR
+        rw [if_pos this, if_pos hR, kvLast_const _ v i this]
+      · have : i ∉ outerF idx := fun hc => hR ((mem_outerF_iff idx i).1 hc)
+        rw [if_neg this, if_neg hR]
+    · have hR : ¬ Sparse.inRegionB idx i = true := fun hc => hb (hidx i hc)
+      rw [if_neg hR, MArr.get_of_not_inBounds (m.grow s') (by exact hb),
+        MArr.get_of_not_inBounds _ (by rw [MArr.assignAll_shape, MArr.grow_shape]; exact hb)]
+  unfold Sparse.regionScalarApply
+  simp only [hsubs']
+  by_cases hv : v = 0
+  · -- zero: delete the region
+    have hvb : (v == 0) = true := by simpa using hv
+    simp only [hvb, if_true]
+    have hrm : (if (Sparse.padSubs S.subs s'.length).isEmpty then []
+        else Sparse.subdims (⟨s', Sparse.padSubs S.subs s'.length, S.vals⟩ : Sparse α) idx) =
+        (List.range (Sparse.padSubs S.subs s'.length).length).filter
+          fun k => Sparse.inRegionB idx ((Sparse.padSubs S.subs s'.length).getD k []) := by
+      split
+      · next he =>
+        have : Sparse.padSubs S.subs s'.length = [] := by simpa using he
+        rw [this]; rfl
+      · rfl
+    rw [hrm]
+    obtain ⟨e1, e2, e3, e4, e5⟩ := region_delete (Sparse.padSubs S.subs s'.length) S.vals hpn hpl
+      (Sparse.inRegionB idx) _ rfl
+    refine ⟨⟨e1, ?_, e2, ?_⟩, ?_, ?_⟩
+    · intro x hx; exact hpin x (e3 x hx)
+    · intro w hw; exact h.wf.nz w (e4 w hw)
+    · show s' = _
+      rw [MArr.assignAll_shape, MArr.grow_shape]
+    · intro i
+      rw [hspec i]
+      refine (e5 i).trans ?_
+      rw [hgrow i, hv]
+  · -- non-zero: overwrite and append
+    have hvb : (v == 0) = false := by simpa using hv
+    simp only [hvb, Bool.false_eq_true, if_false]
+    by_cases hemp : (Sparse.padSubs S.subs s'.length).isEmpty = true
+    · have hnil : Sparse.padSubs S.subs s'.length = [] := by simpa using hemp
+      have hvnil : S.vals = [] := by
+        have := hpl; rw [hnil] at this
+        exact List.eq_nil_of_length_eq_zero this.symm
+      simp only [hemp, if_true]
+      have hfn : (outerC idx).eraseDups.Nodup := eraseDups_nodup _
+      have hfm : ∀ r, r ∈ (outerC idx).eraseDups ↔ Sparse.inRegionB idx r = true ∧ r ∉ ([] : List (List Nat)) := by
+        intro r; rw [List.mem_eraseDups, mem_outerC_iff]; simp
+      obtain ⟨e1, e2, e3, e5⟩ := region_assign ([] : List (List Nat)) ([] : List α) List.nodup_nil rfl
+        (Sparse.inRegionB idx) v [] (outerC idx).eraseDups (by intro k; simp) hfn hfm
+      simp only [List.nil_append, List.map_nil, scatter1, List.foldl_nil] at e1 e2 e3 e5
+      refine ⟨⟨e1, ?_, e2, ?_⟩, ?_, ?_⟩
+      · intro x hx; exact hidx x ((hfm x).1 hx).1
+      · intro w hw
+        rcases e3 w hw with hc | hc
+        · cases hc
+        · rw [hc]; simpa using hv
+      · show s' = _
+        rw [MArr.assignAll_shape, MArr.grow_shape]
+      · intro i
+        rw [hspec i]
+        refine (e5 i).trans ?_
+        rw [← hgrow i, hnil, hvnil]
+    · have hemp' : (Sparse.padSubs S.subs s'.length).isEmpty = false := by
+        cases hq : (Sparse.padSubs S.subs s'.length).isEmpty with
+        | true => exact absurd hq hemp
+        | false => rfl
+      simp only [hemp', Bool.false_eq_true, if_false]
+      obtain ⟨hfn, hfm'⟩ := fresh_spec (Sparse.padSubs S.subs s'.length) (outerC idx)
+      have hfm : ∀ r, r ∈ (setdiffRows (toIntRows (outerC idx)) (toIntRows (Sparse.padSubs S.subs s'.length))).map
+          (fun k => (outerC idx).getD k []) ↔
+          Sparse.inRegionB idx r = true ∧ r ∉ Sparse.padSubs S.subs s'.length := by
+        intro r; rw [hfm' r, mem_outerC_iff]
+      have hloc : ∀ k, k ∈ intersectRows (toIntRows (Sparse.padSubs S.subs s'.length)) (toIntRows (outerC idx)) ↔
+          k < (Sparse.padSubs S.subs s'.length).length ∧
+            Sparse.inRegionB idx ((Sparse.padSubs S.subs s'.length).getD k []) = true := by
+        intro k; rw [mem_loc _ _ hpn k, mem_outerC_iff]
+      obtain ⟨e1, e2, e3, e5⟩ := region_assign (Sparse.padSubs S.subs s'.length) S.vals hpn hpl
+        (Sparse.inRegionB idx) v _ _ hloc hfn hfm
+      refine ⟨⟨e1, ?_, e2, ?_⟩, ?_, ?_⟩
+      · intro x hx
+        rcases List.mem_append.1 hx with hc | hc
+        · exact hpin x hc
+        · exact hidx x ((hfm x).1 hc).1
+      · intro w hw
+        rcases e3 w hw with hc | hc
+        · exact h.wf.nz w hc
+        · rw [hc]; simpa using hv
+      · show s' = _
+        rw [MArr.assignAll_shape, MArr.grow_shape]
+      · intro i
+        rw [hspec i]
+        refine (e5 i).trans ?_
+        rw [hgrow i]
+
+/-- `S[region] = scalar` (zero included) refines the specification, for integer, slice and
+index-list key elements, with growth of extents and order. -/
+theorem Sparse.setRegionScalar_refines {S : Sparse α} {m : MArr α} (h : SRel S m) (parts : List RPart) (v : α)
+    (hne : parts ≠ []) (hok : newModesOk S.shape parts = true) :
+    RefWS (S.setItem (.region parts) (.scalar v)) (m.write (.region parts) (.scalar v)) := by
+  have hM : S.setItem (.region parts) (.scalar v) =
+      (do let r ← (do let ps ← Sparse.rewriteNeg S.shape parts; let s' ← Sparse.newSizeScalar S.shape ps
+                      let idx ← Sparse.regionIdx s' ps
+                      pure (s', idx) : Except Reject (List Nat × List (List Nat)))
+          Except.ok (Sparse.regionScalarApply S r.1 r.2 v)) := by
+    rw [Sparse.setItem_region_scalar]
+    simp only [Sparse.setSubtensorScalar, bind, Except.bind, pure, Except.pure]
+    rcases Sparse.rewriteNeg S.shape parts with ⟨⟨⟩⟩ | ps
+    · rfl
+    · simp only
+      rcases Sparse.newSizeScalar S.shape ps with ⟨⟨⟩⟩ | s'
+      · rfl
+      · simp only
+        rcases Sparse.regionIdx s' ps with ⟨⟨⟩⟩ | idx <;> rfl
+  rw [hM, sp_region S.shape parts hok]
+  have hemp : parts.isEmpty = false := by cases parts <;> simp_all
+  simp only [MArr.write, MArr.resolveWrite, hemp, Bool.false_eq_true, ↓reduceIte, ← h.shape]
+  cases hr : MArr.regionParts true S.shape parts with
+  | error e => simp [RefWS, Except.map, bind, Except.bind]
+  | ok rs =>
+    simp only [RefWS, Except.map, bind, Except.bind, MArr.regionValues, pure, Except.pure]
+    rw [zip_replicate_eq_map]
+    obtain ⟨g1, g2, g3⟩ := regionParts_grow_props hr hok
+    apply regionScalarApply_spec h
+    · simpa using g1
+    · exact g2
+    · intro k hk hk'; exact g3 k hk (by simpa using hk')
+    · intro t ht
+      exact outerF_inBounds rs (regionParts_lt hr) t ((mem_outerF_iff _ t).2 ht)
+
+end rr
 
 end Pyttb
